@@ -852,9 +852,14 @@ def s_mps_expec(draw, tier):
     if route in ("correlation", "magnetization"):
         desc["unit"] = True  # only defined for normalised states
     n = desc["L"]
+    compress = draw(st.sampled_from([None, False, True]))
+    if compress and desc["cyclic"]:
+        # transfer-matrix compression calls an interpolative SVD on the (left bond^2 x right bond^2) section operator;
+        # that is a decomposition route of its own (C17): keep it square and full rank by construction
+        desc["bonds"] = [max(2, desc["bonds"][0])] * n
     return {"state": desc, "route": route, "where": draw(s_where(n)), "where2": draw(s_where(n, kmax=2)),
             "gseed": draw(A.seeds), "spelling": draw(st.sampled_from(["function", "method"])),
-            "compress": draw(st.sampled_from([None, False, True])), "direction": draw(st.sampled_from(["X", "Y", "Z"])),
+            "compress": compress, "direction": draw(st.sampled_from(["X", "Y", "Z"])),
             "mpo_bond": draw(st.integers(1, 3)), "B": draw(st.booleans()), "lone": draw(st.booleans())}
 
 
@@ -991,6 +996,10 @@ def run_mps_ptr(case):
 # ---------------------------------------------------------------------------
 
 MODES_2D = ["mps", "mps", "full-bond", "full-bond", "projector2d", "direct", "dm", "zipup", "projector", "local-early"]
+# plaquette environments document {'mps', 'full-bond'}; the generic 1D compressors are reached through the same
+# fall-through of contract_boundary_from. 'projector2d' is not a plaquette mode (it leaves the projector legs open and
+# compute_local_expectation then hands back a rank-8 Tensor) - not generated for expectations.
+MODES_2D_LOCAL = ["mps", "mps", "mps", "full-bond", "full-bond", "direct", "dm", "zipup", "projector", "local-early"]
 
 
 @st.composite
@@ -1001,10 +1010,10 @@ def s_peps_local(draw, tier):
     wheres = []
     for _ in range(nterms):
         w = draw(s_where(n, kmax=2))
-        if len(w) == 2 and draw(st.integers(0, 3)) > 0:
-            w = sorted(w)  # lattice order is the documented-accepted class: construct it 3 times out of 4
+        if len(w) == 2 and draw(st.integers(0, 7)) > 0:
+            w = sorted(w)  # lattice order is the documented-accepted class: construct it 7 times out of 8
         wheres.append(w)
-    return {"state": desc, "wheres": wheres, "gseed": draw(A.seeds), "mode": draw(st.sampled_from(MODES_2D)),
+    return {"state": desc, "wheres": wheres, "gseed": draw(A.seeds), "mode": draw(st.sampled_from(MODES_2D_LOCAL)),
             "layer_tags": draw(st.booleans()), "autogroup": draw(st.booleans()), "normalized": draw(st.sampled_from([True, False, None])),
             "canonize": draw(st.booleans()), "return_all": draw(st.booleans()),
             "optimize": draw(st.sampled_from(["auto-hq", "greedy"])), "gform": draw(st.sampled_from(["matrix", "tensor"]))}
@@ -1165,6 +1174,136 @@ def run_peps3d_local(case):
     return {"nt": is_nt(s, w0), "cls": cls, "err": e}
 
 
+# ---------------------------------------------------------------------------
+# 10. the documented "node or sequence[node]" / "dict[node or (node, node)]" spellings of a one-site term
+# ---------------------------------------------------------------------------
+
+LONE_AG = ["partial_trace_exact", "compute_local_expectation_exact", "local_expectation_cluster",
+           "compute_local_expectation_cluster", "local_expectation_sloop_expand", "local_expectation_gloop_expand",
+           "compute_local_expectation_gloop_expand", "local_expectation", "compute_local_expectation"]
+LONE_MPS = ["partial_trace_to_dense_canonical", "local_expectation_canonical", "mps.compute:canonical", "mps.compute:envs"]
+
+
+@st.composite
+def s_lone(draw, tier):
+    # the three spellings that work today are drawn as often as the ten that are open findings (C13-c / C13-f), so the
+    # sub-check keeps an accepted share while those are swallowed as known
+    if draw(st.booleans()):
+        route = draw(st.sampled_from(["partial_trace_exact", "partial_trace_to_dense_canonical", "local_expectation_canonical"]))
+    else:
+        route = draw(st.sampled_from(LONE_AG + LONE_MPS))
+    desc = draw(s_mps(cyclic=False)) if route in LONE_MPS else draw(s_graph(shape="tree", names=True))
+    return {"state": desc, "route": route, "site": draw(st.integers(0, 8)), "gseed": draw(A.seeds),
+            "return_all": draw(st.booleans())}
+
+
+def run_lone(case):
+    try:
+        return _run_lone(case)
+    except Violation as v:
+        if v.reason != "crash":
+            raise
+        # differential: the same call with the 1-tuple spelling must also fail, else the bare node was mishandled
+        try:
+            _run_lone(case, wrap=True)
+        except Violation:
+            raise v
+        grp = "mps" if case["route"] in LONE_MPS else "ag"
+        raise Violation("lone-node-rejected", group=grp, route=case["route"], exc=v.info.get("exc"), at=v.info.get("where")) from v
+
+
+def _run_lone(case, wrap=False):
+    s = build_state(case["state"])
+    route = case["route"]
+    i = case["site"] % s.n
+    node = (s.sites[i],) if wrap else s.sites[i]
+    G, Gm = make_op(s, [i], case["gseed"])
+    info = dict(route=route, lone=True)
+    ref, fl = ref_expec(s, Gm, [i], True), np.linalg.norm(Gm)
+    ra = case["return_all"]
+    tol = TOL
+    if route in LONE_MPS:
+        psi = s.psi
+        if route == "partial_trace_to_dense_canonical":
+            rho = guarded(lambda: psi.partial_trace_to_dense_canonical(node), **info)
+            e = check_rho(rho, s, [i], True, tol, **info)
+        elif route == "local_expectation_canonical":
+            e = check_scalar(guarded(lambda: psi.local_expectation_canonical(G, node), **info), ref, fl, tol, **info)
+        else:
+            method = route.split(":")[1]
+            res = guarded(lambda: psi.compute_local_expectation({node: G}, method=method, return_all=ra), **info)
+            e = check_terms(res, {node: (ref, fl)}, ra, tol, **info)
+    else:
+        needs_g = "cluster" in route or "loop" in route
+        psi, g = converge_gauges(s.psi) if needs_g else (s.psi, None)
+        tol = TOLG if needs_g else TOL
+        if route == "partial_trace_exact":
+            e = check_rho(guarded(lambda: psi.partial_trace_exact(node), **info), s, [i], True, tol, **info)
+        elif route == "compute_local_expectation_exact":
+            res = guarded(lambda: psi.compute_local_expectation_exact({node: G}, return_all=ra), **info)
+            e = check_terms(res, {node: (ref, fl)}, ra, tol, **info)
+        elif route == "local_expectation_cluster":
+            e = check_scalar(guarded(lambda: psi.local_expectation_cluster(G, node, gauges=g), **info), ref, fl, tol, **info)
+        elif route == "compute_local_expectation_cluster":
+            res = guarded(lambda: psi.compute_local_expectation_cluster({node: G}, gauges=g, return_all=ra), **info)
+            e = check_terms(res, {node: (ref, fl)}, ra, tol, **info)
+        elif route == "local_expectation_sloop_expand":
+            e = check_scalar(guarded(lambda: psi.local_expectation_sloop_expand(G, node, sloops=s.n + 1, gauges=g), **info),
+                             ref, fl, tol, **info)
+        elif route == "local_expectation_gloop_expand":
+            e = check_scalar(guarded(lambda: psi.local_expectation_gloop_expand(G, node, gloops=s.n + 1, gauges=g), **info),
+                             ref, fl, tol, **info)
+        elif route == "compute_local_expectation_gloop_expand":
+            res = guarded(lambda: psi.compute_local_expectation_gloop_expand({node: G}, gloops=s.n + 1, gauges=g, return_all=ra), **info)
+            e = check_terms(res, {node: (ref, fl)}, ra, tol, **info)
+        elif route == "local_expectation":
+            e = check_scalar(guarded(lambda: psi.local_expectation(G, node, max_bond=64, optimize="greedy", cutoff=0.0), **info),
+                             ref, fl, tol, **info)
+        else:
+            res = guarded(lambda: psi.compute_local_expectation({node: G}, max_bond=64, optimize="greedy", cutoff=0.0,
+                                                                return_all=ra), **info)
+            e = check_terms(res, {node: (ref, fl)}, ra, tol, **info)
+    return {"nt": not s.unit, "cls": ["route=" + route, "fam=" + s.desc["fam"], "names=" + str(s.desc.get("names", "int"))], "err": e}
+
+
+# ---------------------------------------------------------------------------
+# 11. loop expansions with a shared `info` cache (documented: reusable while network and gauges stay the same)
+# ---------------------------------------------------------------------------
+
+@st.composite
+def s_loop_info(draw, tier):
+    desc = draw(s_graph(shape=draw(st.sampled_from(["tree", "unicyclic", "core"]))))
+    kind = draw(st.sampled_from(["sloop", "gloop"] if desc["shape"] != "core" else ["gloop"]))
+    return {"state": desc, "kind": kind, "wheres": [draw(s_loop_where(desc)) for _ in range(2)], "same_where": draw(st.booleans()),
+            "gseeds": [draw(A.seeds), draw(A.seeds)], "sizes": [draw(st.sampled_from(["c", "n", "n+2"])) for _ in range(2)]}
+
+
+def run_loop_info(case):
+    s = build_state(case["state"])
+    desc = s.desc
+    n, c = s.n, (len(desc["core"]) or 2)
+    psi, g = converge_gauges(s.psi)
+    kind = case["kind"]
+    shared = {}
+    e = 0.0
+    wheres = list(case["wheres"])
+    if case["same_where"]:
+        wheres[1] = wheres[0]
+    for step, (w, gs, sz) in enumerate(zip(wheres, case["gseeds"], case["sizes"])):
+        size = {"c": max(c, 3), "n": max(n, c, 3), "n+2": n + 2}[sz]
+        G, Gm = make_op(s, w, gs)
+        where = where_sites(s, w)
+        info = dict(route=kind + ":info-reuse", step=step, same_where=list(w) == list(wheres[0]) and step == 1,
+                    same_op=step == 1 and gs == case["gseeds"][0])
+        if kind == "sloop":
+            x = guarded(lambda: psi.local_expectation_sloop_expand(G, where, sloops=size, gauges=g, info=shared), **info)
+        else:
+            x = guarded(lambda: psi.local_expectation_gloop_expand(G, where, gloops=size, gauges=g, info=shared), **info)
+        e = max(e, check_scalar(x, ref_expec(s, Gm, w, True), np.linalg.norm(Gm), TOLG, **info))
+    return {"nt": True, "cls": ["kind=" + kind, "shape=" + desc["shape"], f"same_where={list(wheres[0]) == list(wheres[1])}",
+                                f"same_size={case['sizes'][0] == case['sizes'][1]}"], "err": e}
+
+
 SUBCHECKS = [
     SubCheck("ag_exact", run_exact, s_exact, examples=(150, 4000), shards=(1, 4),
              rule="partial_trace_exact (get matrix/array/tensor), local_expectation_exact (matrix / tensor operator), "
@@ -1201,7 +1340,7 @@ SUBCHECKS = [
                   "(upper = ket index, Hermitian, trace <psi|psi>); nt: complex state and (>= 2 kept sites or raw norm)"),
     SubCheck("peps2d_local", run_peps_local, s_peps_local, examples=(70, 2000), shards=(2, 6),
              rule="PEPS.compute_local_expectation (1-3 terms: bare coordinate or coordinate pair, adjacent / diagonal / distant, "
-                  "matrix or tensor operator) x 8 boundary modes x layer_tags x autogroup x normalized (True/False/default) x "
+                  "matrix or tensor operator) x 7 boundary modes x layer_tags x autogroup x normalized (True/False/default) x "
                   "canonize x return_all ((expec, norm) pairs), max_bond=64, cutoff=0; pairs not in lattice order must raise "
                   "KeyError (rejection) or be right; nt as RULE"),
     SubCheck("peps2d_norm", run_peps_norm, s_peps_norm, examples=(70, 2000), shards=(1, 4),
@@ -1211,4 +1350,10 @@ SUBCHECKS = [
              rule="PEPS3D.partial_trace (boundary | compressed cell contraction), partial_trace_cluster (spanning), "
                   "compute_local_expectation x flatten x symmetrized x normalized x canonize on 2x2x2 (and 2x2x3), sites in "
                   "any order (1-3), untruncating cap; nt as RULE"),
+    SubCheck("lone_site", run_lone, s_lone, examples=(130, 3000), shards=(1, 4), min_accept=0.1,
+             rule="a one-site term given as the bare node (documented 'node or sequence[node]' / 'dict[node or (node, node)]' / "
+                  "'int or tuple[int]') through 9 arbitrary-geometry and 4 MPS entry points, int and str node names; nt: raw norm"),
+    SubCheck("loop_info_reuse", run_loop_info, s_loop_info, examples=(100, 2500), shards=(1, 4), min_accept=0.1,
+             rule="two successive sloop / gloop expectations (same or different `where`, operator and loop size) sharing one "
+                  "`info` cache on the unchanged network and gauges; every call must give its own dense value; all nt"),
 ]
